@@ -14,7 +14,7 @@ from vlib.normalise import GUARDS, NORMALISERS, PREDICATES, pin_holds
 CHECKS: Dict[str, Callable[[str, Dict[str, Any]], Tuple[List[Any], Any]]] = {}
 
 
-def _attribute(check: Callable[..., Any], src: str, spec: Dict[str, Any], f: Any, known: Sequence[Dict[str, Any]]) -> Optional[str]:
+def _attribute(check: Callable[..., Any], src: str, spec: Dict[str, Any], f: Any, known: Sequence[Dict[str, Any]], depth: int = 0) -> Optional[str]:
     if re.search(r"crash|build|raised", f.kind):
         # no listed finding is an internal error of tealer: an exception on a valid program is always reported
         return None
@@ -36,6 +36,13 @@ def _attribute(check: Callable[..., Any], src: str, spec: Dict[str, Any], f: Any
             continue
         fs2, _ = check(norm, spec)
         same = [g for g in fs2 if g.kind == f.kind and g.block_line == f.block_line]
+        if same and depth < 2:
+            # two listed findings can meet in one program (e.g. an OnCompletion check consumed by a trailing branch): the
+            # violation that remains in the normalised program must itself be attributable to ANOTHER listed finding
+            rest = [k2 for k2 in known if k2["id"] != k["id"]]
+            if not all(g.replayed and _attribute(check, norm, spec, g, rest, depth + 1) for g in same):
+                continue
+            same = []
         if not same:
             if "pin" in m and pin_holds(m["pin"], src) is False:
                 # tealer does not treat the program the way the listed finding says: this is something else
